@@ -41,10 +41,11 @@ class CsrDecWorld(World):
     # ------------------------------------------------------------------------------------------
     def _gen_tree(self, rng, aw, depth, kind):
         node = {"t": "dec", "aw": aw, "al": rng.choice([0, 0, 1, 2]), "subs": []}
-        for i in range(rng.range(0, 3) if depth else rng.range(1, 4)):
+        many = depth == 0 and rng.chance(0.25)
+        for i in range(rng.range(0, 3) if depth else (rng.range(5, 14) if many else rng.range(1, 4))):
             if aw < 2:
                 break
-            saw = rng.range(1, aw - 1)
+            saw = rng.range(1, aw - 1) if not many else rng.range(1, max(1, aw - 4))
             if depth < 2 and rng.chance(0.3) and saw >= 2:
                 sub = self._gen_tree(rng, saw, depth + 1, kind)
             elif kind == "stub":
@@ -66,7 +67,7 @@ class CsrDecWorld(World):
     def gen_config(self, rng, prop):
         kind = rng.wchoice([("stub", 6), ("flat", 4)])
         dw = rng.choice([4, 8, 16]) if kind == "stub" else 8
-        aw = rng.range(2, 7)
+        aw = rng.range(2, 7) if not rng.chance(0.3) else rng.range(6, 9)
         return {"kind": kind, "dw": dw, "tree": self._gen_tree(rng, aw, 0, kind),
                 "hwseed": rng.bits(32)}
 
